@@ -25,7 +25,7 @@ func init() {
 		Assumptions: []string{"xiam/to returns the advertised Go type", "C15 shows each constructor embeds the wrapper of its format family"},
 		NotDecided:  []string{"numeric edge behaviour of xiam/to (negative or huge numbers into an unsigned conversion)", "formats without declared minimum/maximum have no range to enforce"},
 		Rules: []core.Rule{
-			{ID: "C12-R1", Title: "convert is exhaustive over the declared formats and typed", Decides: "the stored value always has the type its format declares; typed getters never fail", Floor: 12, Run: c12r1},
+			{ID: "C12-R1", Title: "convert is exhaustive over the declared formats and typed", Decides: "the stored value always has the type its format declares; typed getters never fail", Floor: 12, Run: func(c *core.Ctx) { c12r1(c); polarityEverywhere(c, "C12") }},
 			{ID: "C12-R2", Title: "clamp is exhaustive, pure and enforces each bound independently", Decides: "the stored value lies within its declared minimum and maximum", Floor: 8, Run: c12r2},
 			{ID: "C12-R3", Title: "getters, adapters and bound setters agree with the conversion types", Decides: "typed getters never fail; a declared bound is never skipped", Floor: 10, Run: func(c *core.Ctx) { c12r3(c); boundsHaveTheFormatsType(c) }},
 			{ID: "C12-R4", Title: "non-finite floats are excluded before the store", Decides: "the attribute database always encodes; value within range", Floor: 1, Run: c12r4},
